@@ -49,7 +49,7 @@ func runR062(c *core.Ctx) {
 	var cbParam types.Object
 	for _, fl := range rr.Type.Params.List {
 		for _, n := range fl.Names {
-			if nt, ok := inf.Defs[n].Type().(*types.Named); ok && nt.Obj().Name() == "MapReader" {
+			if nt, ok := inf.Defs[n].Type().(*types.Named); ok && core.NameOf(nt.Obj()) == "MapReader" {
 				cbParam = inf.Defs[n]
 			}
 		}
@@ -155,7 +155,7 @@ func runR062(c *core.Ctx) {
 	var qcb types.Object
 	for _, fl := range qd.Type.Params.List {
 		for _, n := range fl.Names {
-			if nt, ok := inf.Defs[n].Type().(*types.Named); ok && nt.Obj().Name() == "MapReader" {
+			if nt, ok := inf.Defs[n].Type().(*types.Named); ok && core.NameOf(nt.Obj()) == "MapReader" {
 				qcb = inf.Defs[n]
 			}
 		}
@@ -278,7 +278,7 @@ func runR065(c *core.Ctx) {
 				okAll = false
 				return true
 			}
-			if nn := namedOf(inf.Types[ta.Type].Type); nn == nil || nn.Obj().Name() != "MissingRequiredFieldsError" {
+			if nn := namedOf(inf.Types[ta.Type].Type); nn == nil || core.NameOf(nn.Obj()) != "MissingRequiredFieldsError" {
 				okAll = false
 			}
 			okVar := core.ObjOf(inf, init.Lhs[1])
